@@ -8,6 +8,8 @@ C17-b  alloc/copy agreement: every memcpy / snprintf / indexed store into a buff
 C17-c  unsigned subtraction: every `x -= y` on an unsigned quantity in the response scanners is implied by a
        preceding comparison x >= y (facts established inside small static helpers are seen: helpers are inlined).
 C17-d  confinement and verification for garbage input: shared with C05-b/c/d.
+C17-f  a pointer derived from a sub-match offset of a pattern that contains response text (dl_regex, end_regex) is
+       dereferenced / passed on only when the group is known to have matched (rm_so == -1 otherwise).
 Declined: memory safety of the in-place scanner as a whole; POSIX regex engine behaviour.
 """
 from ..flow import M1, NEG, Z, P1, POS, NONNEG
@@ -273,6 +275,10 @@ def run(ctx):
                 ck.ob('C17-b', 'R4.alloc-copy', name, inst, False, v.msg, v.node.file, v.node.line, path=v.path,
                       config=config)
         ck.min_instances('copies into same-function allocations', n, 8)
+        # ---- f  sub-match offsets of patterns that contain response text
+        from ..rules import submatch
+        nf = submatch.check_submatch(ck, prog, config, 'C17-f')
+        ck.min_instances('functions running a pattern built from the response', nf, 1)
         # ---- c
         nsub = 0
         for fn in sorted(prog.lib_funcs(), key=lambda f: f.qname):
@@ -357,6 +363,41 @@ CLAIM = {
 }
 
 MUTANTS = [
+    {'id': 'm17g', 'desc': 'first range group made optional in the part pattern and parsed with strtoull at an unchecked '
+                           'sub-match offset', 'file': 'src/lib/dl/multipart.c', 'old': '', 'new': '',
+     'edits': [('src/lib/dl/multipart.c', """        size_t rstart = 0;
+        for(char *c=i + match[1].rm_so; c < i + match[1].rm_eo; c++)
+            rstart = rstart*10 + (size_t)(c[0] - 48);""",
+                """        size_t rstart = strtoull(i + match[1].rm_so, NULL, 10);"""),
+               ('src/lib/dl/multipart.c', '"content-range: *bytes *([0-9]+) *- *([0-9]+) */[0-9]+";',
+                '"content-range: *bytes *([0-9]+)? *- *([0-9]+) */[0-9]+";')],
+     'expect': 'R10.submatch multipart_extract'},
+    {'id': 'm17h', 'desc': 'boundary pasted into the pattern unquoted again and a sub-match offset used unchecked',
+     'file': 'src/lib/dl/multipart.c', 'old': '', 'new': '',
+     'edits': [('src/lib/dl/multipart.c', """        size_t rstart = 0;
+        for(char *c=i + match[1].rm_so; c < i + match[1].rm_eo; c++)
+            rstart = rstart*10 + (size_t)(c[0] - 48);""",
+                """        size_t rstart = strtoull(i + match[1].rm_so, NULL, 10);"""),
+               ('src/lib/dl/multipart.c', '    char *quoted = quote_for_regex(boundary);',
+                '    char *quoted = strdup(boundary);')],
+     'expect': 'R10.submatch multipart_extract'},
+    {'id': 'n17g', 'desc': 'optional group, strtoull under a matched-group test', 'file': 'src/lib/dl/multipart.c',
+     'old': '', 'new': '',
+     'edits': [('src/lib/dl/multipart.c', """        size_t rstart = 0;
+        for(char *c=i + match[1].rm_so; c < i + match[1].rm_eo; c++)
+            rstart = rstart*10 + (size_t)(c[0] - 48);""",
+                """        size_t rstart = 0;
+        if(match[1].rm_so >= 0)
+            rstart = strtoull(i + match[1].rm_so, NULL, 10);"""),
+               ('src/lib/dl/multipart.c', '"content-range: *bytes *([0-9]+) *- *([0-9]+) */[0-9]+";',
+                '"content-range: *bytes *([0-9]+)? *- *([0-9]+) */[0-9]+";')],
+     'expect': None},
+    {'id': 'n17h', 'desc': 'mandatory groups, quoted boundary: strtoull at the sub-match offset is fine',
+     'file': 'src/lib/dl/multipart.c',
+     'old': """        size_t rstart = 0;
+        for(char *c=i + match[1].rm_so; c < i + match[1].rm_eo; c++)
+            rstart = rstart*10 + (size_t)(c[0] - 48);""",
+     'new': """        size_t rstart = strtoull(i + match[1].rm_so, NULL, 10);""", 'expect': None},
     {'id': 'm39', 'desc': 'failed compile leaves the allocated regex', 'file': 'src/lib/dl/multipart.c',
      'old': """        /* Never leave an allocated but uncompiled regex behind */
         free(dl->dl_regex);
